@@ -233,7 +233,7 @@ func (c *conformer) value(t gTypeRef, sel []*gSelection, v any, path []any) {
 			return
 		}
 		for i, e := range l {
-			c.value(gTypeRef{Name: t.Name, NonNull: t.ItemNonNull}, sel, e, append(copyPath(path), i))
+			c.value(t.item(), sel, e, append(copyPath(path), i))
 		}
 		return
 	}
@@ -330,7 +330,7 @@ func (c *conformer) nearestNullable(op *gOperation, path []any) ([]any, bool) {
 			}
 			cur = fd.Type
 			inList = cur.List
-			chain = append(chain, step{t: gTypeRef{Name: cur.Name, List: cur.List, NonNull: cur.NonNull, ItemNonNull: cur.ItemNonNull}, path: copyPath(path[:i+1])})
+			chain = append(chain, step{t: cur, path: copyPath(path[:i+1])})
 			sel = nil
 			for _, f := range g.fields {
 				sel = append(sel, f.Sel...)
@@ -340,8 +340,9 @@ func (c *conformer) nearestNullable(op *gOperation, path []any) ([]any, bool) {
 			if !inList {
 				return nil, false
 			}
-			chain = append(chain, step{t: gTypeRef{Name: cur.Name, NonNull: cur.ItemNonNull}, path: copyPath(path[:i+1])})
-			inList = false
+			cur = cur.item()
+			chain = append(chain, step{t: cur, path: copyPath(path[:i+1])})
+			inList = cur.List
 		}
 	}
 	for i := len(chain) - 1; i >= 0; i-- {
